@@ -4,18 +4,20 @@ UNITS = ["coap_block.c", "coap_pdu.c", "coap_option.c", "coap_encode.c", "coap_s
 EXTRA = ["common/env.c"]
 
 META = {
-    "level_text": "PARTIAL. Bounded symbolic model checking (CBMC) of the kernels the body-integrity argument rests on - the received-block "
-                  "range table (one step from every well-formed table, universally quantified witness block) and the Block option codec. "
-                  "The property's end-to-end sentence (exact body delivered once under any loss/duplication, token substitution invisible, "
-                  "release callback once, every block fits the MTU) is NOT claimed: the four block handlers of coap_block.c "
-                  "(each several hundred lines over session x lg_xmit/lg_crcv/lg_srcv lists x PDUs x timers) could not be brought under "
-                  "CBMC within reach.",
+    "level_text": "PARTIAL. Bounded symbolic model checking (CBMC) of (a) the kernels the body-integrity argument rests on - the received-block "
+                  "range table (one step from every well-formed table, universally quantified witness block) and the Block option codec - and "
+                  "(b) the real server-side Block1 receiver coap_handle_request_put_block() driven with the datagrams of one transfer of 2-3 "
+                  "blocks in enumerated delivery orders (in order, reordered, duplicated, incomplete; with and without Size1), all body and "
+                  "token bytes symbolic: exact body, exactly once, own token, nothing before every block is in. The property's full "
+                  "end-to-end sentence (any loss pattern, Block2, client side, every MTU) is NOT claimed beyond the jobs listed in the evidence.",
     "bounds": "S1: update_received_blocks + check_all_blocks_in from EVERY well-formed range table (0..3 ranges, block numbers < 2^20) with "
               "every incoming block number and every witness block / total; L1: coap_get_block_b / coap_opt_block_num on every Block2 value "
-              "of length 0..3 on unreliable and BERT-negotiated reliable sessions.",
-    "outside": "coap_handle_request_put_block, coap_handle_request_send_block, coap_handle_response_send_block, coap_handle_response_get_block, "
-               "Q-Block, setup_block_b size negotiation, coap_block_build_body reassembly, retransmission/timeouts of transfers: not encoded",
-    "assumptions": ["clock stub", "representation invariant of the range table (sorted, disjoint, merged, at most COAP_RBLOCK_CNT-1 ranges) written from the code's own refusal rule"],
+              "of length 0..3 on unreliable and BERT-negotiated reliable sessions; B1: transfers of 2 or 3 blocks of 16 bytes (last block 5 or 16 "
+              "bytes), delivery orders listed per job (<= 4 datagrams), SZX 0, single-body mode, CON, UDP, 2-byte token.",
+    "outside": "Q-Block, transfers of more than 3 blocks other than through the range-table induction, SZX renegotiation, "
+               "retransmission/timeouts of transfers, two concurrent transfers; see DESIGN.md 4.9 for what each added job family covers",
+    "assumptions": ["clock stub", "representation invariant of the range table (sorted, disjoint, merged, at most COAP_RBLOCK_CNT-1 ranges) written from the code's own refusal rule",
+                    "B1: coap_handle_request_put_block is called the way handle_request() calls it (request parsed, response PDU initialised with the request's token)"],
 }
 
 
@@ -36,10 +38,11 @@ def jobs():
             (3, "012", 1, "quick"), (3, "021", 1, "quick"), (3, "0112", 1, "thorough"), (3, "201", 1, "thorough"), (3, "01", 0, "quick"), (3, "02", 0, "thorough")]
     for nblk, sq, complete, tier in seqs:
         for size1 in (1, 0):
+            nolast = str(nblk - 1) not in sq
             for lastlen in ((5, 16) if tier == "quick" and sq in ("01", "012") else (5,)):
                 js.append(Job("B1-put@n%d-seq%s-%s-last%d" % (nblk, sq, "size1" if size1 else "nosize", lastlen), "C09/c09b.c", "c09_b1_put", NU, extra_src=NE,
-                              defines=["NBLK=%d" % nblk, "SEQLEN=%d" % len(sq), "SEQ={%s}" % ",".join(sq), "SIZE1=%d" % size1, "LASTLEN=%d" % lastlen, "COMPLETE=%d" % complete] + cut,
-                              remove_bodies=rb, unwind=50, flags=FS, group="B1-put", timeout=900, est_gb=3, tier=tier,
+                              defines=["NBLK=%d" % nblk, "SEQLEN=%d" % len(sq), "SEQ={%s}" % ",".join(sq), "SIZE1=%d" % size1, "LASTLEN=%d" % lastlen, "COMPLETE=%d" % complete] + cut + (["UNREACH_UPDATE_TOKEN"] if nolast else []),
+                              remove_bodies=rb + (["coap_update_token"] if nolast else []), unwind=50, flags=FS, group="B1-put", timeout=900, est_gb=3, tier=tier,
                               desc="Block1 upload of %d blocks delivered in order %s (%s Size1, last block %d bytes): exact body, once" % (nblk, sq, "with" if size1 else "without", lastlen),
                               bounds={"blocks": nblk, "order": sq, "size1": size1, "last": lastlen}))
     return js
